@@ -76,7 +76,7 @@ CHECKS = {
              '(endpoint URL, JSON content type, payload incl. agent block and the clientToken rule, or no request at all), the return '
              'value or YggdrasilError (status code, service error fields or the malformed message), the stored fields afterwards and '
              'the authenticated property are compared with the model.',
-        note='Error objects are compared field by field including cause. The service stand-in sits at urllib3 HTTPConnectionPool._make_request (below sessions, adapters and retry policies); rate-limiting replies carry Retry-After every other time. Trusted: TLC. The service is a stand-in inside the process (requests.post replaced by a recorder returning real '
+        note='Tokens without a profile are left as the constructor made them (no field is assigned None by the harness). Error objects are compared field by field including cause. The service stand-in sits at urllib3 HTTPConnectionPool._make_request (below sessions, adapters and retry policies); rate-limiting replies carry Retry-After every other time. Trusted: TLC. The service is a stand-in inside the process (requests.post replaced by a recorder returning real '
              'requests.Response objects). Combinations the property does not constrain are recorded as "any".',
         design='5/C19'),
     'C18': dict(
@@ -92,7 +92,7 @@ CHECKS = {
              'lengths 1..64, 1024- and 2048-bit keys). Traces come from whole encrypted logins against the independent peer (which '
              'encrypts with its own CFB8 loop, so interoperation is exercised) and from the wrappers driven directly with random '
              'partitions in both directions.',
-        note='One send on the underlying socket may be interrupted (EINTR) before transferring anything: the peer decrypts exactly what was handed in up to there. Login-reactor traces with a packet already queued when the encryption request is handled: nothing follows the response in plaintext. Half of the encrypted logins carry an ordinary outgoing listener on the encryption response (returning, or raising IgnorePacket). Groups of three logins through one Connection object must negotiate distinct secrets. Trusted: TLC arithmetic / Bitwise overrides, Python pow() for the private-key operation. Randomness is checked for source, '
+        note='Single sends of 4081 - 9000 bytes are decrypted by an independent peer cipher. One send on the underlying socket may be interrupted (EINTR) before transferring anything: the peer decrypts exactly what was handed in up to there. Login-reactor traces with a packet already queued when the encryption request is handled: nothing follows the response in plaintext. Half of the encrypted logins carry an ordinary outgoing listener on the encryption response (returning, or raising IgnorePacket). Groups of three logins through one Connection object must negotiate distinct secrets. Trusted: TLC arithmetic / Bitwise overrides, Python pow() for the private-key operation. Randomness is checked for source, '
              'use and distinctness only. About 2.5 KB (quick) of stream are recomputed by the TLA+ AES.',
         design='5/C18'),
     'C17': dict(
@@ -231,7 +231,7 @@ CHECKS = {
              'versions given as names or numbers over four protocol maps (incl. 2^30-flagged numbers, first and last supported); the '
              'frames the peer decoded on each TCP connection, the connection count, the surfaced exception (class, server_protocol, '
              'wording supported/allowed), handler calls, latency sign, close and exit callback are compared with the model.',
-        note='Reported protocol numbers include negative ones. A quarter of the login scenarios carry a token whose profile is filled in after the Connection was constructed. Also: a status query after a failed attempt on the same Connection object. The scenarios are re-run after the supported-version table has been changed at run time (one version added, one withdrawn, initglobals()). Every client frame of every execution is also judged by the connection-state grammar Trace_Session.tla. Trusted: TLC, virtual socket layer, peer codec. The status-phase handshake may carry any allowed version (contract); the '
+        note='In the virtual network host names resolve to addresses of their own; the handshake must carry the name. Reported protocol numbers include negative ones. A quarter of the login scenarios carry a token whose profile is filled in after the Connection was constructed. Also: a status query after a failed attempt on the same Connection object. The scenarios are re-run after the supported-version table has been changed at run time (one version added, one withdrawn, initglobals()). Every client frame of every execution is also judged by the connection-state grammar Trace_Session.tla. Trusted: TLC, virtual socket layer, peer codec. The status-phase handshake may carry any allowed version (contract); the '
              'model says the latest. Default handlers are observed through captured stdout.',
         design='5/C09'),
     'C10': dict(
@@ -249,7 +249,7 @@ CHECKS = {
              'Runs of plugin requests are sent one at a time and back to back (also back to back with the encryption request that '
              'follows them); the server key comes in three encodings; disconnect reasons cover JSON objects, bare JSON '
              'strings / arrays / null / numbers and non-JSON text.',
-        note='Outdated-client / outdated-server messages also name versions the library does not know. Plugin requests padded to exactly the compression threshold arrive compressed (the peer compresses from the threshold upwards). Also: logins that fail after compression / encryption were switched on and are retried from an exception handler must start from scratch. Every client frame of every execution is also judged by the connection-state grammar Trace_Session.tla. Trusted: TLC, virtual socket layer, peer codec, cryptography package for RSA and the AES block, hashlib for the join '
+        note='Every third plain disconnect is a 20 KB login packet. Outdated-client / outdated-server messages also name versions the library does not know. Plugin requests padded to exactly the compression threshold arrive compressed (the peer compresses from the threshold upwards). Also: logins that fail after compression / encryption were switched on and are retried from an exception handler must start from scratch. Every client frame of every execution is also judged by the connection-state grammar Trace_Session.tla. Trusted: TLC, virtual socket layer, peer codec, cryptography package for RSA and the AES block, hashlib for the join '
              'hash oracle (C17 checks that against TLA+). Thresholds 0,1,64,256,2^31-1 with user-handler payloads sized '
              'thr-1/thr/thr+1.',
         design='5/C10'),
